@@ -77,7 +77,7 @@ def requirements(tier):
 # model construction
 
 def chain_spec(n, sav, swe, rec, mix, root_mode, raiser, other_hooks=True,
-               mix_first=False, bare_raise=False):
+               mix_first=False, bare_raise=False, mix_alias=None):
     """sav/swe/rec/mix: sets of levels (1-based). root_mode: 'reg' | 'unreg'
     | 'abc'. raiser: level whose savorizer raises SeasoningError or None."""
     classes = []
@@ -85,6 +85,10 @@ def chain_spec(n, sav, swe, rec, mix, root_mode, raiser, other_hooks=True,
         classes.append({'name': 'Mix%d' % i, 'kind': 'plain', 'params': [],
                         'registered': False, 'recognize': ['any'],
                         'savorize': [['record']], 'sweeten': [['record']]})
+        if mix_alias:
+            # an unregistered mix-in that is *called* like a registered
+            # class (the unrelated one, or a class of the chain)
+            classes[-1]['py_name'] = mix_alias
     params = [{'name': 'uid', 'type': 'int'}]
     for i in range(1, n + 1):
         params = [p for p in params if 'default' not in p] + \
@@ -481,7 +485,15 @@ def run_case(ctx, params):
                       params['root_mode'], params.get('raiser'),
                       params.get('other_hooks', True),
                       params.get('mix_first', False),
-                      params.get('toplevel', 0) % 2 == 1)
+                      params.get('toplevel', 0) % 2 == 1,
+                      params.get('mix_alias'))
+    # registration order: as listed (bases first), or derived classes first
+    reg_order = None
+    if params.get('derived_first'):
+        reg_order = [c['name'] for c in reversed(spec['classes'])]
+        ctx.count('models_registered_derived_first')
+    if params.get('mix_alias') and params['mix']:
+        ctx.count('models_with_mixin_named_like_a_registered_class')
     root = spec['root']
     m = H.model_of({'classes': spec['classes'], 'doc_type': spec['doc_type']})
     case = dict(params)
@@ -511,7 +523,7 @@ def run_case(ctx, params):
         text = render_plain(plain, style, b.want if pos.endswith(
             '-explicitly-tagged') else None)
         try:
-            load = m.load_fn(doc_type)
+            load = m.load_fn(doc_type, order=reg_order)
         except Exception as e:
             ctx.violation('C10 load-function-creation-failed',
                           '%s: %s (%s)' % (type(e).__name__, e, tag), case)
@@ -601,7 +613,7 @@ def run_case(ctx, params):
             ctx.note('value construction failed: %r' % (e,))
             continue
         try:
-            dumps = m.dumps_fn()
+            dumps = m.dumps_fn(order=reg_order)
         except Exception as e:
             ctx.violation('C10 dumps-function-creation-failed',
                           '%s: %s (%s)' % (type(e).__name__, e, tag), case)
@@ -892,7 +904,10 @@ def all_params(tier):
                              'style': styles[(idx + ci) % len(styles)],
                              'toplevel': idx + ci,
                              'other_hooks': (idx + ci) % 5 != 0,
-                             'mix_first': (idx // 2 + ci) % 2 == 0}
+                             'mix_first': (idx // 2 + ci) % 2 == 0,
+                             'derived_first': (idx + ci) % 3 == 1,
+                             'mix_alias': [None, 'Other', None, 'K1'][
+                                 (idx // 3 + ci) % 4]}
                         yield p
                         if sav and (idx + ci) % 3 == 0:
                             q = dict(p)
